@@ -3,6 +3,7 @@ for `PGA.Scheme.getDescriptors`, the declarative interpretation of a scheme (spe
 observation of the implementation."""
 import collections, json, os, warnings
 from fractions import Fraction
+import contextlib
 from rdkit import Chem
 from . import common
 
@@ -82,7 +83,32 @@ def benson_aromatize(mol):
             b.SetBondType(Chem.BondType.AROMATIC)
 
 
+_RDKIT_DEFAULT = {}
+
+
+@contextlib.contextmanager
+def rdkit_defaults():
+    """RDKit's process-wide switches as a fresh interpreter has them (asked of one, once), for the oracle's own parsing:
+    the molecule a SMILES text denotes is what RDKit reports by default, whatever the package under test set globally"""
+    if 'legacy_stereo' not in _RDKIT_DEFAULT:
+        import subprocess, sys
+        r = subprocess.run([sys.executable, '-c', 'from rdkit import Chem; print(int(Chem.GetUseLegacyStereoPerception()))'],
+                           capture_output=True, text=True, env={k: v for k, v in os.environ.items() if k != 'PYTHONPATH'})
+        _RDKIT_DEFAULT['legacy_stereo'] = (r.stdout.strip() != '0')
+    now = Chem.GetUseLegacyStereoPerception()
+    Chem.SetUseLegacyStereoPerception(_RDKIT_DEFAULT['legacy_stereo'])
+    try:
+        yield
+    finally:
+        Chem.SetUseLegacyStereoPerception(now)
+
+
 def prepare(x, aromatize=True):
+    with rdkit_defaults():
+        return _prepare(x, aromatize)
+
+
+def _prepare(x, aromatize=True):
     """The molecule the properties talk about: explicit-H Kekulé graph with weak bonds as ZERO and (aromatize=True) Benson
     C6 rings aromatic.  Computed with RDKit only.  Returns None when RDKit cannot parse the SMILES.
     aromatize=False: the *raw* graph the Lean model `aromatizeBenson`/`decompose` starts from — the Python perception below
